@@ -164,6 +164,16 @@ def eval_node_outcome(t, rho, extra_hints=()):
     return (tag, v.conditions_fulfilled.name) if tag == "ok" else (tag, v)
 
 
+def eval_rc_outcome(t, rho):
+    """('ok', (requirement_constraints_fulfilled, requirement_is_conditional)) | ('exn', class): the outcome as requirement_constraint_evaluation reports it"""
+    from vlib import evalimpl
+
+    hints = default_hints([k for k in exprs.leaves(t) if exprs.kind(k) == "hint"])
+    evalimpl.set_cer(rc=rho, hints=hints, fc={k: (True, None) for k in exprs.leaves(t) if exprs.kind(k) == "fc"})
+    tag, v = evalimpl.outcome(lambda: evalimpl.rc_evaluation(to_lark(t)))
+    return (tag, (v.requirement_constraints_fulfilled, v.requirement_is_conditional)) if tag == "ok" else (tag, v)
+
+
 def eval_node_outcome_on(lark_tree, t, rho):
     """as eval_node_outcome, on a lark tree object the caller keeps and evaluates again (parse once, evaluate under many assignments)"""
     from vlib import evalimpl
